@@ -140,7 +140,7 @@ def run(chk):
             if rng.random() < 0.6:
                 feats["imports"] = False
             src, files, opts, st = asmgen.generate(rng, feats, size=rng.choice([8, 12, 18, 26, 36]))
-            if src in seen or not any(k in st["kinds"] for k in ("loop", "if", "invoke", "const", "import")):
+            if src in seen or not any(k in st["kinds"] for k in ("loop", "if", "invoke", "const", "import", "idiom_late_condition", "idiom_scoped_alias_import")):
                 continue
             seen.add(src)
             f = {"main.asm": src}
